@@ -42,7 +42,7 @@ PROTOS = ("ubx", "nmea", "rtcm")
 def floors(tier):
     f = {f"pair={a}>{b}": 15 for a in PROTOS for b in PROTOS}
     f.update({"rejected>accepted": 100, "rtcm-empty>frame": 10, "ubx-len>=256": 15, "rtcm-len>=256": 10,
-              "noise": 100, "nontrivial": 300})
+              "noise": 100, "nontrivial": 300, "source=buffered": 300, "source=file": 100, "source=pipe": 100})
     return f
 
 
@@ -56,6 +56,7 @@ OPTS = st.fixed_dictionaries({
     "parsebitfield": st.sampled_from([1, 0]),
     "quitonerror": st.sampled_from([0, 1]),
     "labelmsm": st.sampled_from([1, 1, 2]),
+    "source": st.sampled_from(S.SOURCES),
 })
 
 
@@ -66,6 +67,7 @@ def case_strategy():
 
 def check(case) -> core.Out:
     items, opts = case["items"], dict(case["opts"])
+    source = opts.pop("source", "bytesio")
     data = streams.stream_bytes(items)
     frames = [i for i in items if i["p"] != "noise"]
     protos = [i["p"] for i in frames]
@@ -74,7 +76,7 @@ def check(case) -> core.Out:
         classes.append(f"pair={a['p']}>{b['p']}")
     if any(i["p"] == "noise" for i in items):
         classes.append("noise")
-    out = core.Out(classes=classes, dig=core.digest((data, sorted(opts.items()))))
+    out = core.Out(classes=classes, dig=core.digest((data, source, sorted(opts.items()))))
     expected, verdicts = [], []
     for fr in frames:
         verdict, res = S.direct_parse(bytes(fr["b"]), opts)
@@ -98,7 +100,8 @@ def check(case) -> core.Out:
     out.sample = {"frames": [f"{i['p']}:{i['tag']}:{len(i['b'])}B" for i in items], "opts": opts,
                   "stream_head": data[:40]}
     errs = []
-    stream = io.BytesIO(data)
+    stream = S.make_source(data, source)
+    classes.append(f"source={source.split(':')[0]}")
     try:
         got, exc = S.read_all(stream, opts, handler=errs.append if opts["quitonerror"] == 1 else None,
                               limit=4 * len(data) + 50)
